@@ -75,35 +75,56 @@ def signed_fold_idiom(e, var):
 
 
 def rule_format_enum(repo: Repo, chk: Check, R: str):
+    from .shared import return_paths, cond_polarity
     u = repo.mod("utils")
-    # ------------------------------------------------------------ R08.d
     fe = u.func("format_enum")
     chk.saw("utils", "format_enum")
-    ecfg, erd = fn_ctx(fe)
     wfe = f"{u.path}:{fe.lineno} in format_enum"
     ep = fe.args.args[0].arg
-    okv, okn = False, True
-    n_ret = 0
-    for n in ecfg.nodes:
-        if n.kind != "return" or n.id not in ecfg.reachable() or n.ast.value is None:
-            continue
-        n_ret += 1
-        v = n.ast.value
-        verbose = None
-        for tst, p in guard_atoms(ecfg, n.id):
-            if isinstance(tst, ast.Compare) and norm(tst.left).endswith("_output_mode") and norm(tst.comparators[0]) == "OutputMode.VERBOSE" and isinstance(tst.ops[0], ast.Eq):
-                verbose = p
-        txt = norm(v)
-        if verbose is True:
-            if not (txt == f"{ep}.name" or txt.endswith(f"+ {ep}.name")):
-                okn = False
-        elif verbose is False:
-            okv = txt in (f"{ep}.value", f"int({ep})", f"int({ep}.value)")
-        else:
-            okn = False
-    chk.judge(R, "utils:format_enum:verbose spelling is the member's name", okn and n_ret >= 2, "a verbose return is not <enum>.name / Class.<enum>.name of the argument", None, wfe)
-    chk.judge(R, "utils:format_enum:compact spelling is the member's value", okv, "the non-verbose return is not <enum>.value of the same argument", None, wfe)
 
+    def verbose_pred(t):
+        if isinstance(t, ast.Compare) and len(t.ops) == 1 and norm(t.left).endswith("_output_mode") and norm(t.comparators[0]) == "OutputMode.VERBOSE":
+            if isinstance(t.ops[0], (ast.Eq, ast.Is)):
+                return True
+            if isinstance(t.ops[0], (ast.NotEq, ast.IsNot)):
+                return False
+        return None
+
+    def is_name(v):
+        """<ep>.name, possibly prefixed by the member's type name."""
+        if norm(v) == f"{ep}.name":
+            return True
+        if isinstance(v, ast.BinOp) and isinstance(v.op, ast.Add) and norm(v.right) == f"{ep}.name":
+            return True
+        if isinstance(v, ast.JoinedStr) and v.values and isinstance(v.values[-1], ast.FormattedValue) and norm(v.values[-1].value) == f"{ep}.name":
+            others = [x for x in v.values[:-1] if isinstance(x, ast.FormattedValue)]
+            return all(ep in norm(x.value) and "name__" in norm(x.value) for x in others)
+        return False
+
+    seen = {"verbose": 0, "compact": 0}
+    bad = []
+    for conds, v in return_paths(fe):
+        if v is None:
+            continue
+        pol = cond_polarity(conds, verbose_pred)
+        if pol == "infeasible":
+            continue
+        if pol is None:
+            raise AnalysisError("format_enum: a return is not guarded by a comparison of the output mode with OutputMode.VERBOSE")
+        if pol:
+            seen["verbose"] += 1
+            if not is_name(v):
+                bad.append(("verbose", norm(v)))
+        else:
+            seen["compact"] += 1
+            if norm(v) not in (f"{ep}.value", f"int({ep})", f"int({ep}.value)"):
+                bad.append(("compact", norm(v)))
+    if not seen["verbose"] or not seen["compact"]:
+        raise AnalysisError(f"format_enum: returns per mode {seen}")
+    chk.judge(R, "utils:format_enum:verbose spelling is the member's name", not [b_ for b_ in bad if b_[0] == "verbose"],
+              f"a verbose return is {[b_[1] for b_ in bad if b_[0] == 'verbose']}, not <member>.name (optionally prefixed by its type name) of the argument", None, wfe)
+    chk.judge(R, "utils:format_enum:compact spelling is the member's value", not [b_ for b_ in bad if b_[0] == "compact"],
+              f"a non-verbose return is {[b_[1] for b_ in bad if b_[0] == 'compact']}, not <member>.value of the same argument", None, wfe)
 
 
 def run(repo: Repo, chk: Check):
@@ -309,22 +330,23 @@ def run(repo: Repo, chk: Check):
         raise AnalysisError("R08.h: no CRC computation found at all")
 
     # ------------------------------------------------------------ R08.g
+    from .shared import return_paths
     fi = u.func("format_int")
     chk.saw("utils", "format_int")
-    icfg, ird = fn_ctx(fi)
     wfi = f"{u.path}:{fi.lineno} in format_int"
     vp = fi.args.args[0].arg
-    for n in icfg.nodes:
-        if n.kind != "return" or n.id not in icfg.reachable() or n.ast.value is None:
+    n_paths = 0
+    for conds, v in return_paths(fi):
+        if v is None:
             continue
-        v = n.ast.value
+        n_paths += 1
         if isinstance(v, ast.Call) and norm(v.func) == "str" and norm(v.args[0]) == vp:
             chk.ok("R08.g", "utils:format_int:decimal spelling str(value)", None)
         elif isinstance(v, ast.JoinedStr) and len(v.values) == 2 and isinstance(v.values[0], ast.Constant) and v.values[0].value == "$" \
                 and isinstance(v.values[1], ast.FormattedValue) and norm(v.values[1].value) == vp and v.values[1].format_spec is not None \
                 and "".join(x.value for x in v.values[1].format_spec.values if isinstance(x, ast.Constant)) in ("X", "x"):
             nonneg = False
-            for tst, p in guard_atoms(icfg, n.id):
+            for tst, p in conds:
                 for part, pol in _disj(tst, p):
                     ub = compare_upper_bound(part, pol)
                     if ub and ub[0] == {vp: -1} and ub[1] <= 0:
@@ -333,6 +355,8 @@ def run(repo: Repo, chk: Check):
                       "the '$HEX' spelling is reachable for negative values ('$-1F' is not an IC10 number)", None, wfi)
         else:
             chk.bad("R08.g", f"utils:format_int:return {norm(v)[:50]}", "spelling is neither str(value) nor '$' + hex of the same value", None, wfi)
+    if n_paths < 2:
+        raise AnalysisError("format_int: return paths not recognised")
 
 
 def _disj(test, pol):
